@@ -164,12 +164,25 @@ func genProgram(t *rapid.T, hookedWeight int, minSteps, maxSteps int) program {
 		case "waitChildren", "waitParents", "groupShutdown":
 			st.Group = rapid.IntRange(0, len(m.prog.Groups)-1).Draw(t, "group")
 			if kind == "groupShutdown" {
-				for i, ps := range m.prog.Pools {
-					// pools below the group (groups are at most two levels: 0 root, 1 child of 0)
-					if ps.Group == st.Group || (st.Group == 0 && ps.Group >= 0) {
-						m.running[i] = false
+				// mirrors Group.shutdown: every group shuts its pools down only once
+				var shut func(g int)
+				shut = func(g int) {
+					if m.gShut[g] {
+						return
+					}
+					m.gShut[g] = true
+					for i, ps := range m.prog.Pools {
+						if ps.Group == g {
+							m.running[i] = false
+						}
+					}
+					for child, parent := range m.prog.Groups {
+						if parent == g {
+							shut(child)
+						}
 					}
 				}
+				shut(st.Group)
 			}
 		}
 		m.prog.Steps = append(m.prog.Steps, st)
